@@ -131,6 +131,9 @@ def gen_world(rng: random.Random, tier: str) -> dict:
     if kind == "preger":
         nref = rng.randint(1, min(nch) - 1) if min(nch) > 1 else 1
         w["ref_ind"] = [rng.sample(range(c), nref) for c in nch]  # any order, any position
+        if rng.random() < 0.2:
+            # a different number of reference channels per dataset (the split itself does not require equal counts)
+            w["ref_ind"] = [rng.sample(range(c), rng.randint(1, c - 1)) for c in nch]
     return w
 
 
